@@ -96,7 +96,8 @@ CHECKS = {
         'ids, import references, equivalences with ids; printed forms; equals both ways; no parent; no object shared with the original; equivalences closed over the clone. Then every member of '
         'the alphabet (all setters on every reachable sub-entity, add/remove of every child kind, equivalence add/remove/ids, import source url/id through the entity, ~50-250 per entity) is '
         'applied to a fresh original and to a fresh clone and the other side must be unchanged (0.4 M mutations quick). A reset-link grid (2 shapes x variable in {own, sibling, child, no component, null} x test_variable in the same five x order set/unset = 100 models) gets the same oracle and mutation phase, '
-        'plus: a link to a variable of the reset\'s own component must be re-targeted to the clone\'s variable at the same position. A further family clones models with an equivalence to a variable outside '
+        'plus: a link to a variable of the reset\'s own component must be re-targeted to the clone\'s variable at the same position. An import-sharing grid (imported component with an imported child / grandchild below a local child / sibling, with or without imported units, every partition of these entities into shared '
+        'import-source objects: 21 models, API-built and parsed) adds: the sharing partition of import sources is the same in original and clone. A further family clones models with an equivalence to a variable outside '
         'the model (no crash, own equivalences unchanged).',
    note='Trusted: canonical dumps (common.hpp, c10c11.hpp), the JSON->API builder, the repository printer/parser for the parsed origin and the printed-form comparison, ASan/UBSan. Known field '
         'losses are repaired on the clone from outside before the whole-object comparisons so that other differences still surface. The mutation phase of the parsed origin runs without ASan. Only one '
@@ -166,15 +167,15 @@ CHECKS = {
         'the seeds; whether an import should have succeeded (C07). Crashes found by the corpus belong to C01 and are listed as known findings.'),
  'C12': dict(level='model_checking', ref='3/C12',
    technique='explicit-state exploration of call histories on the real code with one forked process per history and per probe: all histories of length <= 2 (quick) / <= 3 (thorough) '
-             'over a 26-operation alphabet, each followed by every operation as a probe, compared with the same probe in a fresh process; plus BFS to closure over the abstract tuple of '
+             'over a 27-operation alphabet, each followed by every operation as a probe, compared with the same probe in a fresh process; plus BFS to closure over the abstract tuple of '
              'process-global state (all public libxml2 globals, parser-initialised flags, DTD-decompressed flag) with the abstraction validated on every transition',
    text='Alphabet: parse strict/permissive x 6 documents (math with / without inter-element blanks, resets with math, imports, CellML 1.1, invalid incl. DTD-invalid math), print, print+autoIds, '
-        'validate (valid, invalid), analyse (valid, invalid, unlinked units), generate C / Python, resolveImports, flattenModel, Annotator::assignAllIds, Units::scalingFactor, '
+        'validate (valid, invalid), analyse (valid, invalid, unlinked units), generate C / Python / C-with-power-operator profile (all on ONE held AnalyserModel of a model with root/degree, log/logbase, power, piecewise, min/max), resolveImports, flattenModel, Annotator::assignAllIds, Units::scalingFactor, '
         'Component::isDefined; service calls work on the model returned by the latest parse in the history, else on an API-built twin, on long-lived service instances. '
         'Every history (mixed-radix index) runs once in a forked child of a pristine process and is followed by EVERY operation in a forked grandchild. Judged per (history, probe): '
         'raw model dump (raw math strings) / text / issue list with descriptions equal to the fresh-process observation; argument model unchanged; second call on the same instance '
-        'observes the same; every model, issue and AnalyserModel returned earlier dumps as when returned; Analyser::model() exposes only the model just analysed. '
-        'Quick: 703 histories x 26 probes (+27 under ASan); thorough: 18279 x 26. BFS over global-state tuples runs to closure (7 states, 182 transitions), two histories with the same '
+        'observes the same; every model, issue and AnalyserModel returned earlier dumps as when returned (AnalyserModel dump = variables, equations and every equation AST node with the consistency of its parent link); Analyser::model() exposes only the model just analysed. '
+        'Quick: 757 histories x 27 probes (+28 under ASan); thorough: 20440 x 27. BFS over global-state tuples runs to closure (7 states, 182 transitions), two histories with the same '
         'tuple but different observations are reported as harness abstraction errors (exit 2). Complete for the stated bound; nothing is sampled.',
    note='Trusted: the canonical dumps in harness/common.hpp + c12.cpp (public getters), fork() isolation, dlsym/ELF-symtab reads of the globals (no libxml2 accessor is called), libxml2 itself. '
         'The known blank-handling leak is filtered by a CAUSAL predicate only: the finding must vanish when xmlKeepBlanksDefaultValue is put back to its fresh value after every library '
@@ -186,7 +187,7 @@ CHECKS = {
         'print -> independent well-formedness -> strict parse (same canonical content; no parser issue if the validator accepted the model) -> print -> parse (same content). '
         'Quick: all labelled rooted forests on <= 3 components x 1|2 variables x every subset of <= 2 admissible variable pairs x every listing order x both orientations x 5 '
         'id patterns x 2 name orders (29 736), variable attribute product (120), units definitions (6 698: all (reference,prefix,exponent,multiplier) combinations for <= 2 unit '
-        'children, every acyclic 2- and 3-definition reference structure in every listing order), resets (65), imports (346), math blocks x prefix declaration place (15), and '
+        'children, every acyclic 2- and 3-definition reference structure in every listing order), resets (65), imports (346), imported components at every position of every labelled forest on <= 4 components x every import mask x with/without imported units x own/shared source x ids (14 866; thorough <= 5 components, 323 314), math blocks x prefix declaration place (15), and '
         '33 string attribute positions x 11 awkward texts (363); a sanitizer sub-family repeats <= 2 components, resets, imports, variables, texts under ASan+UBSan. Thorough: '
         'subsets of <= 3 on 3 components (217 896), all 125 forests on 4 components with subsets of <= 2 (790 096), larger units/resets/imports families and all pairs of 29 '
         'positions x 11^2 texts (49 126). Complete for the stated bounds; nothing is sampled.',
